@@ -23,6 +23,14 @@ def norm_text(s: str) -> str:
     return WS.sub(' ', s).strip(' ')
 
 
+def text_of(elem):
+    """Text content as the reader reports it: XML whitespace normalised unless the element
+    says xml:space="preserve" (WN-LMF 1.3)."""
+    if elem.get('space') == 'preserve':
+        return elem['text']
+    return norm_text(elem['text'])
+
+
 def K(spec, id_):
     return '%s|%s' % (spec, id_)
 
@@ -173,7 +181,7 @@ class Model:
             if ili and ili != 'in' and ili not in self.ilis:
                 d = ss.get('ili_definition')
                 self.ilis[ili] = {'status': 'presupposed',
-                                  'definition': norm_text(d['text']) if d else None,
+                                  'definition': text_of(d) if d else None,
                                   'meta': (dict(d['meta']) if d and d.get('meta') else None)}
         self.installed.append(sp)
 
@@ -470,11 +478,11 @@ class Model:
                     ent = self.idx[x].sense.get(s['id'])
                     if ent and ent[0].get('external'):
                         xs.append((x, ent[0]))
-                examples = [norm_text(ex['text']) for ex in s.get('examples', [])]
+                examples = [text_of(ex) for ex in s.get('examples', [])]
                 counts = [[c['value'], meta_of(c)] for c in s.get('counts', [])]
                 frames = list(ix.frames_of(s['id']))
                 for x, xsn in xs:
-                    examples += [norm_text(ex['text']) for ex in xsn.get('examples', [])]
+                    examples += [text_of(ex) for ex in xsn.get('examples', [])]
                     counts += [[c['value'], meta_of(c)] for c in xsn.get('counts', [])]
                     frames += self.idx[x].frames_of(s['id'])
                 nav = list(self.installed) if default_mode else scope
@@ -496,16 +504,16 @@ class Model:
                 xss = [(x, self.idx[x].synset[ss['id']]) for x in exts
                        if ss['id'] in self.idx[x].synset
                        and self.idx[x].synset[ss['id']].get('external')]
-                defs = [norm_text(d['text']) for d in ss.get('definitions', [])]
+                defs = [text_of(d) for d in ss.get('definitions', [])]
                 if defs:
                     definition = defs[0]
                 else:
-                    firsts = [norm_text(xs_['definitions'][0]['text']) for _, xs_ in xss
+                    firsts = [text_of(xs_['definitions'][0]) for _, xs_ in xss
                               if xs_.get('definitions')]
                     definition = OneOf(firsts) if firsts else None
-                examples = [norm_text(ex['text']) for ex in ss.get('examples', [])]
+                examples = [text_of(ex) for ex in ss.get('examples', [])]
                 for x, xs_ in xss:
-                    examples += [norm_text(ex['text']) for ex in xs_.get('examples', [])]
+                    examples += [text_of(ex) for ex in xs_.get('examples', [])]
                 declared = [K(sp, m) for m in ss.get('members', []) or []]
                 others = []
                 for x in [sp] + exts:
@@ -518,7 +526,7 @@ class Model:
                 if ili == 'in':
                     d = ss.get('ili_definition')
                     ili_img = {'id': None, 'status': 'proposed',
-                               'definition': norm_text(d['text']) if d else None,
+                               'definition': text_of(d) if d else None,
                                'meta': meta_of(d) if d else {}}
                 elif ili:
                     ili_img = {'id': ili}
